@@ -190,7 +190,14 @@ fn deep_run(ctx: &Ctx, acc: &mut Acc, which: &'static [&'static str]) {
 
 fn generic_run(ctx: &Ctx, acc: &mut Acc, which: &'static [&'static str], workload: &str, n: u64, cfgf: impl Fn(u64, &Rng) -> Cfg + Sync) {
     run_workload(ctx, acc, workload, n, |k, rng, acc| {
-        let cfg = cfgf(k, rng);
+        let mut cfg = cfgf(k, rng);
+        // the detectors of C05, C06 and C08 do not look at the compiler version: any single pragma will do
+        if which[..] != C07_DETS[..] && cfg.pragma.is_some() && rng.chance(1, 2) {
+            cfg.pragma = Some(rng.ps(&["0.4.24", "^0.4.11", "0.5.17", "0.6.8", "0.6.12", "0.7.6", "0.8.0", "0.8.4", "0.8.17", "^0.8.0", ">=0.6.0 <0.9.0", "1.0.0"]).to_string());
+        }
+        if which[..] == C06_DETS[..] {
+            cfg.shadow = true;
+        }
         let mut b = Builder::new(rng, cfg);
         let f = b.file();
         drop(b);
@@ -511,6 +518,39 @@ fn c07_shaped(_k: u64, rng: &Rng) -> File {
         f.body = Some(b.st(S::Block { unchecked: false, stmts }));
         parts.push(Part::Func(f));
     }
+    // now and then the contract itself defines a modifier that its functions invoke, with or without a mention of
+    // msg.sender in its body (the verdict on a function is about the function's own text)
+    if rng.chance(1, 3) {
+        let invoked: Vec<String> = parts.iter().filter_map(|p| if let Part::Func(f) = p { Some(f) } else { None }).flat_map(|f| f.attrs.iter()).filter_map(|a| if let FAttr::Modifier(n, _) = a { Some(n.clone()) } else { None }).filter(|n| !n.contains('.')).collect();
+        if !invoked.is_empty() {
+            let name = rng.pick(&invoked).clone();
+            let mut m = b.func(FnKind::Modifier, true, false);
+            m.name = Some(name);
+            m.params = if rng.chance(1, 2) { None } else { Some(vec![]) };
+            let mut stmts: Vec<St> = vec![];
+            match rng.below(3) {
+                0 => {
+                    let s0 = b.msg_sender();
+                    let o = b.var("owner_");
+                    let cmp = b.bin(BinOp::Eq, s0, o);
+                    let rq = b.var("require");
+                    let call = b.call(rq, vec![cmp]);
+                    stmts.push(b.st(S::Expr(call)));
+                }
+                1 => {
+                    let chk = b.var("_checkOwner");
+                    let call = b.call(chk, vec![]);
+                    stmts.push(b.st(S::Expr(call)));
+                }
+                _ => {}
+            }
+            let u = b.var("_");
+            stmts.push(b.st(S::Expr(u)));
+            m.body = Some(b.st(S::Block { unchecked: false, stmts }));
+            let at = rng.below(parts.len() + 1);
+            parts.insert(at, Part::Func(m));
+        }
+    }
     c.parts = parts;
     items.push(Item::Contract(c));
     // a second contract that holds a guard only (must not protect the first)
@@ -658,8 +698,15 @@ fn c08_shaped(k: u64, rng: &Rng) -> File {
                 _ => b.ex(E::Un(UnOp::Delete, Box::new(target))),
             };
             // position of the write
-            let st = match rng.below(14) {
+            let st = match rng.below(16) {
                 0 | 1 => b.st(S::Expr(w)),
+                14 | 15 => {
+                    // the write is the right-hand side of a plain assignment to (another) state variable: a = b = v
+                    let on: String = rng.pick(&vars).clone();
+                    let outer = b.var(&on);
+                    let e = b.bin(BinOp::Assign, outer, w);
+                    b.st(S::Expr(e))
+                }
                 2 => {
                     let x = b.var("x");
                     let e = b.bin(BinOp::Pow, x, w);
@@ -770,8 +817,31 @@ fn c08_shaped(k: u64, rng: &Rng) -> File {
             stmts.push(b.st(S::Expr(e)));
         }
         f.body = Some(b.st(S::Block { unchecked: false, stmts }));
-        d.parts = vec![Part::Func(f)];
-        items.push(Item::Contract(d));
+        d.parts = if rng.chance(1, 3) { vec![] } else { vec![Part::Func(f)] };
+        // ... and now and then with a constructor of its own that assigns them
+        if rng.chance(1, 2) {
+            let mut ctor = b.func(FnKind::Constructor, true, false);
+            ctor.attrs.clear();
+            ctor.params = Some(vec![]);
+            let mut cst = vec![];
+            for _ in 0..rng.range(1, 2) {
+                let vn: String = rng.pick(&vars).clone();
+                let v = b.var(&vn);
+                let r = b.num("5");
+                let e = b.bin(BinOp::Assign, v, r);
+                cst.push(b.st(S::Expr(e)));
+            }
+            ctor.body = Some(b.st(S::Block { unchecked: false, stmts: cst }));
+            let at = rng.below(d.parts.len() + 1);
+            d.parts.insert(at, Part::Func(ctor));
+        }
+        // the deriving contract may stand in front of its base
+        if rng.chance(1, 3) {
+            let at = items.len() - 1;
+            items.insert(at, Item::Contract(d));
+        } else {
+            items.push(Item::Contract(d));
+        }
     }
     drop(b);
     File { items }
@@ -915,7 +985,7 @@ fn c09_file(version: &str, spelling: usize, placement: usize, body_kind: usize, 
             if rng.chance(1, 2) {
                 parts.push(Part::Using(id, vec!["double".into(), "Lib.triple".into()], true, Some(t), false));
             } else {
-                parts.push(Part::Using(id, vec!["Address".into()], false, Some(t), false));
+                parts.push(Part::Using(id, vec![rng.ps(&["Address", "EnumerableSet", "EnumerableMap", "Math"]).to_string()], false, Some(t), false));
             }
         }
         let id = b.ids.next();
@@ -930,9 +1000,14 @@ fn c09_file(version: &str, spelling: usize, placement: usize, body_kind: usize, 
             let mm = b.member(x, m);
             let y = b.small_expr(0);
             let call = b.call(mm, vec![y]);
-            let l = b.var("y");
-            let e = b.bin(BinOp::Assign, l, call);
-            stmts.push(b.st(S::Expr(e)));
+            // the result assigned, or the call standing alone as a statement
+            if rng.chance(1, 4) {
+                stmts.push(b.st(S::Expr(call)));
+            } else {
+                let l = b.var("y");
+                let e = b.bin(BinOp::Assign, l, call);
+                stmts.push(b.st(S::Expr(e)));
+            }
         }
     }
     let strings = ["\"\"", "\"short\"", "'thirty-one bytes long string 01'", "\"thirty-two bytes long string  012\"", "\"thirty-three bytes long string 0123\"", "\"a revert reason that is considerably longer than thirty-two bytes, one hundred bytes or so in total....\""];
@@ -1082,6 +1157,58 @@ pub fn run_c09(ctx: &Ctx) -> i32 {
             judge(&p, &format!("rv{}#{}", vs, k), &C09_DETS, Layout::OneTokenPerLine, rng, acc, &extra);
         }
     });
+    // the same question through the directory walker: files of the SAME name on different sides of a threshold, in one
+    // run (the verdict of each follows its own pragma, whatever was analysed before it under that name)
+    {
+        let thresholds = ["0.7.6", "0.8.0", "0.8.3", "0.8.4", "0.6.12", "0.8.17", "0.4.24", "1.0.0"];
+        let n = ctx.tier.pick(64u64, 640u64);
+        run_workload(ctx, &mut acc, "directory-namesakes-across-the-thresholds", n, |k, rng, acc| {
+            use crate::mon::tree::{build, observed_findings_inprocess, Ent};
+            let body = |v: &str| format!("pragma solidity {};\ncontract C {{\n    using SafeMath for uint256;\n    function f(uint256 a, uint256 b) public returns (uint256) {{\n        require(a > b, \"short\");\n        require(a > 1, \"a message that is definitely longer than thirty-two bytes\");\n        return a.add(b);\n    }}\n}}\n", v);
+            let v1 = thresholds[(k as usize) % thresholds.len()];
+            let v2 = thresholds[((k as usize) / thresholds.len()) % thresholds.len()];
+            let v3 = *rng.pick(&thresholds);
+            let file = |v: &str| Ent::File { name: "Same.sol".to_string(), bytes: body(v).into_bytes() };
+            let mut ents = vec![file(v1), Ent::Dir { name: "lib".to_string(), kids: vec![file(v2), Ent::Dir { name: "x".to_string(), kids: vec![file(v3)] }] }];
+            if rng.chance(1, 2) {
+                ents.reverse(); // creation order decides the listing order on tmpfs
+            }
+            let root = crate::mon::c11::scratch_dir("c09d");
+            build(&root, &ents);
+            let pats: Vec<dets::Det> = C09_DETS.iter().map(|n| dets::ALL.iter().find(|(m, _)| m == n).unwrap().1).collect();
+            let mut want: Vec<(String, Vec<i32>)> = vec![];
+            for v in [v1, v2, v3] {
+                let t = spec::parse_version(v).unwrap_or((0, 0, 0));
+                if t < (0, 8, 0) {
+                    want.push(("safe_math_pre_080".into(), vec![7]));
+                } else {
+                    want.push(("safe_math_post_080".into(), vec![7]));
+                }
+                if t >= (0, 8, 4) {
+                    want.push(("string_errors".into(), vec![5, 6]));
+                } else {
+                    want.push(("short_revert_string".into(), vec![6]));
+                }
+            }
+            want.sort();
+            match observed_findings_inprocess(&root, &pats) {
+                Ok(found) => {
+                    let mut have: Vec<(String, Vec<i32>)> = found.into_iter().filter(|f| f.1 == "Same.sol").map(|f| (f.0, f.2)).collect();
+                    have.sort();
+                    acc.eval();
+                    acc.cov("directory-namesakes:compared");
+                    if v1 != v2 || v2 != v3 {
+                        acc.nontrivial_h(crate::common::hash_str(&format!("c09d{}{}{}", v1, v2, v3)));
+                    }
+                    if have != want {
+                        acc.violation("directory:namesakes-across-a-threshold", json!({"versions": {"Same.sol": v1, "lib/Same.sol": v2, "lib/x/Same.sol": v3}, "expected": want, "observed": have}));
+                    }
+                }
+                Err((m, at)) => acc.violation("directory:analyze_dir-panicked", json!({"panic": m, "at": at})),
+            }
+            let _ = std::fs::remove_dir_all(&root);
+        });
+    }
     floors(ctx, &mut acc, &C09_DETS, ctx.tier.pick(200, 1000), ctx.tier.pick(200, 1000));
     meta.assumptions = vec![
         "files with zero or several pragma solidity directives, ranges, fewer than three components, concatenated/unicode/escaped literals, `using {f} for` and path-qualified SafeMath are DONT_CARE (DESIGN.md 8.5)".into(),
